@@ -391,6 +391,81 @@ impl WorkerTree {
         self.update_external_dependencies(&path);
     }
 
+    /// Canonical description of the worker tree state (verification hook, used as a
+    /// state key when exploring watch-mode histories).
+    #[cfg(feature = "verif-hooks")]
+    pub fn verif_digest(&self) -> String {
+        let mut index_to_path: HashMap<NodeIndex, String> = HashMap::new();
+        for (path, index) in self.node_map.iter() {
+            index_to_path.insert(*index, path.display().to_string());
+        }
+        let name_of = |index: &NodeIndex| -> String {
+            if self.graph.node_weight(*index).is_none() {
+                "<dangling>".to_owned()
+            } else {
+                index_to_path
+                    .get(index)
+                    .cloned()
+                    .unwrap_or_else(|| "<unmapped>".to_owned())
+            }
+        };
+        let mut nodes: Vec<String> = self
+            .graph
+            .node_indices()
+            .map(|index| {
+                let item = self.graph.node_weight(index).expect("node index should exist");
+                let status = match &item.status {
+                    WorkStatus::NotStarted => "not-started".to_owned(),
+                    WorkStatus::InProgress(_) => "in-progress".to_owned(),
+                    WorkStatus::Done(Ok(())) => "done".to_owned(),
+                    WorkStatus::Done(Err(err)) => format!("error({})", err),
+                };
+                let mut deps: Vec<String> = item
+                    .external_file_dependencies
+                    .iter()
+                    .map(|path| path.display().to_string())
+                    .collect();
+                deps.sort();
+                let mut edges: Vec<String> = self
+                    .graph
+                    .neighbors(index)
+                    .map(|other| name_of(&other))
+                    .collect();
+                edges.sort();
+                format!(
+                    "{}=>{} [{}] deps={:?} edges={:?} mapped={}",
+                    item.data.source().display(),
+                    item.data.output().display(),
+                    status,
+                    deps,
+                    edges,
+                    index_to_path.contains_key(&index)
+                )
+            })
+            .collect();
+        nodes.sort();
+        let mut external: Vec<String> = self
+            .external_dependencies
+            .iter()
+            .map(|(path, indexes)| {
+                let mut names: Vec<String> = indexes.iter().map(name_of).collect();
+                names.sort();
+                format!("{}<-{:?}", path.display(), names)
+            })
+            .collect();
+        external.sort();
+        let mut remove: Vec<String> = self
+            .remove_files
+            .iter()
+            .map(|path| path.display().to_string())
+            .collect();
+        remove.sort();
+        format!(
+            "nodes={:?} external={:?} remove={:?} config={:?}",
+            nodes, external, remove, self.last_configuration_hash
+        )
+    }
+
     /// Checks if a source file is present in the worker tree.
     pub fn contains(&mut self, path: impl AsRef<Path>) -> bool {
         let path = normalize_path(path.as_ref());
